@@ -1,6 +1,10 @@
 use std::fmt::{self, Debug};
 use std::pin::pin;
+#[cfg(not(eigerco_lumina_verif))]
 use std::sync::Arc;
+
+#[cfg(eigerco_lumina_verif)]
+use crate::verif::VArc as Arc;
 
 use tokio::sync::Notify;
 
